@@ -235,7 +235,9 @@ fn show_info(i: UpdateInfo) -> String {
         UpdateInfo::NoPoint => "nopoint".to_string(),
         UpdateInfo::NoEvent => "noevent".to_string(),
         UpdateInfo::Created(id) => format!("created:{}", id),
-        UpdateInfo::Overflow { created, discarded } => format!("overflow:{}:{}", created, discarded),
+        UpdateInfo::Overflow { created, discarded } => {
+            format!("overflow:{}:{}", created, discarded)
+        }
     }
 }
 
@@ -243,11 +245,29 @@ fn show_ffi_info(i: &ffi::UpdateInfo) -> String {
     let c = |x: ffi::UpdateResult| std::os::raw::c_int::from(x);
     if i.result == c(ffi::UpdateResult::NoPoint) {
         // the C struct always carries the two counters: they must be zero here
-        format!("nopoint{}", if i.created == 0 && i.discarded == 0 { "" } else { ":nonzero" })
+        format!(
+            "nopoint{}",
+            if i.created == 0 && i.discarded == 0 {
+                ""
+            } else {
+                ":nonzero"
+            }
+        )
     } else if i.result == c(ffi::UpdateResult::NoEvent) {
-        format!("noevent{}", if i.created == 0 && i.discarded == 0 { "" } else { ":nonzero" })
+        format!(
+            "noevent{}",
+            if i.created == 0 && i.discarded == 0 {
+                ""
+            } else {
+                ":nonzero"
+            }
+        )
     } else if i.result == c(ffi::UpdateResult::Created) {
-        format!("created:{}{}", i.created, if i.discarded == 0 { "" } else { ":nonzero" })
+        format!(
+            "created:{}{}",
+            i.created,
+            if i.discarded == 0 { "" } else { ":nonzero" }
+        )
     } else if i.result == c(ffi::UpdateResult::Overflow) {
         format!("overflow:{}:{}", i.created, i.discarded)
     } else {
@@ -256,7 +276,12 @@ fn show_ffi_info(i: &ffi::UpdateInfo) -> String {
 }
 
 fn double_bit(tok: &str) -> (std::os::raw::c_int, DoubleBit) {
-    pick!(tok, DoubleBit, DoubleBit, [Intermediate, DeterminedOff, DeterminedOn, Indeterminate])
+    pick!(
+        tok,
+        DoubleBit,
+        DoubleBit,
+        [Intermediate, DeterminedOff, DeterminedOn, Indeterminate]
+    )
 }
 
 fn show_double_bit(d: DoubleBit) -> &'static str {
@@ -410,93 +435,233 @@ fn parse_f64(tok: &str) -> (f64, f64) {
 }
 
 point_ops!(
-    run_bi, BinaryInput, BinaryInputConfig, BinaryInput, BinaryInputConfig,
-    dnp3_database_add_binary_input, dnp3_database_remove_binary_input, dnp3_database_update_binary_input,
-    dnp3_database_update_binary_input_2, dnp3_database_get_binary_input,
-    StaticBinaryInputVariation, StaticBinaryInputVariation, [Group1Var1, Group1Var2],
-    EventBinaryInputVariation, EventBinaryInputVariation, [Group2Var1, Group2Var2, Group2Var3],
-    parse_bool, show_bool, show_bool,
-    |s, e, _d: f64| ffi::BinaryInputConfig { static_variation: s, event_variation: e },
+    run_bi,
+    BinaryInput,
+    BinaryInputConfig,
+    BinaryInput,
+    BinaryInputConfig,
+    dnp3_database_add_binary_input,
+    dnp3_database_remove_binary_input,
+    dnp3_database_update_binary_input,
+    dnp3_database_update_binary_input_2,
+    dnp3_database_get_binary_input,
+    StaticBinaryInputVariation,
+    StaticBinaryInputVariation,
+    [Group1Var1, Group1Var2],
+    EventBinaryInputVariation,
+    EventBinaryInputVariation,
+    [Group2Var1, Group2Var2, Group2Var3],
+    parse_bool,
+    show_bool,
+    show_bool,
+    |s, e, _d: f64| ffi::BinaryInputConfig {
+        static_variation: s,
+        event_variation: e
+    },
     |s, e, _d: f64| BinaryInputConfig::new(s, e),
     BinaryInput
 );
 
 point_ops!(
-    run_dbbi, DoubleBitBinaryInput, DoubleBitBinaryInputConfig, DoubleBitBinaryInput, DoubleBitBinaryInputConfig,
-    dnp3_database_add_double_bit_binary_input, dnp3_database_remove_double_bit_binary_input,
-    dnp3_database_update_double_bit_binary_input, dnp3_database_update_double_bit_binary_input_2,
+    run_dbbi,
+    DoubleBitBinaryInput,
+    DoubleBitBinaryInputConfig,
+    DoubleBitBinaryInput,
+    DoubleBitBinaryInputConfig,
+    dnp3_database_add_double_bit_binary_input,
+    dnp3_database_remove_double_bit_binary_input,
+    dnp3_database_update_double_bit_binary_input,
+    dnp3_database_update_double_bit_binary_input_2,
     dnp3_database_get_double_bit_binary_input,
-    StaticDoubleBitBinaryInputVariation, StaticDoubleBitBinaryInputVariation, [Group3Var1, Group3Var2],
-    EventDoubleBitBinaryInputVariation, EventDoubleBitBinaryInputVariation, [Group4Var1, Group4Var2, Group4Var3],
-    double_bit, show_db, |v| show_ffi_double_bit(v).to_string(),
-    |s, e, _d: f64| ffi::DoubleBitBinaryInputConfig { static_variation: s, event_variation: e },
+    StaticDoubleBitBinaryInputVariation,
+    StaticDoubleBitBinaryInputVariation,
+    [Group3Var1, Group3Var2],
+    EventDoubleBitBinaryInputVariation,
+    EventDoubleBitBinaryInputVariation,
+    [Group4Var1, Group4Var2, Group4Var3],
+    double_bit,
+    show_db,
+    |v| show_ffi_double_bit(v).to_string(),
+    |s, e, _d: f64| ffi::DoubleBitBinaryInputConfig {
+        static_variation: s,
+        event_variation: e
+    },
     |s, e, _d: f64| DoubleBitBinaryInputConfig::new(s, e),
     DoubleBitBinaryInput
 );
 
 point_ops!(
-    run_bos, BinaryOutputStatus, BinaryOutputStatusConfig, BinaryOutputStatus, BinaryOutputStatusConfig,
-    dnp3_database_add_binary_output_status, dnp3_database_remove_binary_output_status,
-    dnp3_database_update_binary_output_status, dnp3_database_update_binary_output_status_2,
+    run_bos,
+    BinaryOutputStatus,
+    BinaryOutputStatusConfig,
+    BinaryOutputStatus,
+    BinaryOutputStatusConfig,
+    dnp3_database_add_binary_output_status,
+    dnp3_database_remove_binary_output_status,
+    dnp3_database_update_binary_output_status,
+    dnp3_database_update_binary_output_status_2,
     dnp3_database_get_binary_output_status,
-    StaticBinaryOutputStatusVariation, StaticBinaryOutputStatusVariation, [Group10Var1, Group10Var2],
-    EventBinaryOutputStatusVariation, EventBinaryOutputStatusVariation, [Group11Var1, Group11Var2],
-    parse_bool, show_bool, show_bool,
-    |s, e, _d: f64| ffi::BinaryOutputStatusConfig { static_variation: s, event_variation: e },
+    StaticBinaryOutputStatusVariation,
+    StaticBinaryOutputStatusVariation,
+    [Group10Var1, Group10Var2],
+    EventBinaryOutputStatusVariation,
+    EventBinaryOutputStatusVariation,
+    [Group11Var1, Group11Var2],
+    parse_bool,
+    show_bool,
+    show_bool,
+    |s, e, _d: f64| ffi::BinaryOutputStatusConfig {
+        static_variation: s,
+        event_variation: e
+    },
     |s, e, _d: f64| BinaryOutputStatusConfig::new(s, e),
     BinaryOutputStatus
 );
 
 point_ops!(
-    run_ctr, Counter, CounterConfig, Counter, CounterConfig,
-    dnp3_database_add_counter, dnp3_database_remove_counter, dnp3_database_update_counter,
-    dnp3_database_update_counter_2, dnp3_database_get_counter,
-    StaticCounterVariation, StaticCounterVariation, [Group20Var1, Group20Var2, Group20Var5, Group20Var6],
-    EventCounterVariation, EventCounterVariation, [Group22Var1, Group22Var2, Group22Var5, Group22Var6],
-    parse_u32, show_u32, show_u32,
-    |s, e, d: f64| ffi::CounterConfig { static_variation: s, event_variation: e, deadband: d as u32 },
+    run_ctr,
+    Counter,
+    CounterConfig,
+    Counter,
+    CounterConfig,
+    dnp3_database_add_counter,
+    dnp3_database_remove_counter,
+    dnp3_database_update_counter,
+    dnp3_database_update_counter_2,
+    dnp3_database_get_counter,
+    StaticCounterVariation,
+    StaticCounterVariation,
+    [Group20Var1, Group20Var2, Group20Var5, Group20Var6],
+    EventCounterVariation,
+    EventCounterVariation,
+    [Group22Var1, Group22Var2, Group22Var5, Group22Var6],
+    parse_u32,
+    show_u32,
+    show_u32,
+    |s, e, d: f64| ffi::CounterConfig {
+        static_variation: s,
+        event_variation: e,
+        deadband: d as u32
+    },
     |s, e, d: f64| CounterConfig::new(s, e, d as u32),
     Counter
 );
 
 point_ops!(
-    run_fctr, FrozenCounter, FrozenCounterConfig, FrozenCounter, FrozenCounterConfig,
-    dnp3_database_add_frozen_counter, dnp3_database_remove_frozen_counter, dnp3_database_update_frozen_counter,
-    dnp3_database_update_frozen_counter_2, dnp3_database_get_frozen_counter,
-    StaticFrozenCounterVariation, StaticFrozenCounterVariation,
-    [Group21Var1, Group21Var2, Group21Var5, Group21Var6, Group21Var9, Group21Var10],
-    EventFrozenCounterVariation, EventFrozenCounterVariation, [Group23Var1, Group23Var2, Group23Var5, Group23Var6],
-    parse_u32, show_u32, show_u32,
-    |s, e, d: f64| ffi::FrozenCounterConfig { static_variation: s, event_variation: e, deadband: d as u32 },
+    run_fctr,
+    FrozenCounter,
+    FrozenCounterConfig,
+    FrozenCounter,
+    FrozenCounterConfig,
+    dnp3_database_add_frozen_counter,
+    dnp3_database_remove_frozen_counter,
+    dnp3_database_update_frozen_counter,
+    dnp3_database_update_frozen_counter_2,
+    dnp3_database_get_frozen_counter,
+    StaticFrozenCounterVariation,
+    StaticFrozenCounterVariation,
+    [
+        Group21Var1,
+        Group21Var2,
+        Group21Var5,
+        Group21Var6,
+        Group21Var9,
+        Group21Var10
+    ],
+    EventFrozenCounterVariation,
+    EventFrozenCounterVariation,
+    [Group23Var1, Group23Var2, Group23Var5, Group23Var6],
+    parse_u32,
+    show_u32,
+    show_u32,
+    |s, e, d: f64| ffi::FrozenCounterConfig {
+        static_variation: s,
+        event_variation: e,
+        deadband: d as u32
+    },
     |s, e, d: f64| FrozenCounterConfig::new(s, e, d as u32),
     FrozenCounter
 );
 
 point_ops!(
-    run_ai, AnalogInput, AnalogInputConfig, AnalogInput, AnalogInputConfig,
-    dnp3_database_add_analog_input, dnp3_database_remove_analog_input, dnp3_database_update_analog_input,
-    dnp3_database_update_analog_input_2, dnp3_database_get_analog_input,
-    StaticAnalogInputVariation, StaticAnalogInputVariation,
-    [Group30Var1, Group30Var2, Group30Var3, Group30Var4, Group30Var5, Group30Var6],
-    EventAnalogInputVariation, EventAnalogInputVariation,
-    [Group32Var1, Group32Var2, Group32Var3, Group32Var4, Group32Var5, Group32Var6, Group32Var7, Group32Var8],
-    parse_f64, show_f64, show_f64,
-    |s, e, d: f64| ffi::AnalogInputConfig { static_variation: s, event_variation: e, deadband: d },
+    run_ai,
+    AnalogInput,
+    AnalogInputConfig,
+    AnalogInput,
+    AnalogInputConfig,
+    dnp3_database_add_analog_input,
+    dnp3_database_remove_analog_input,
+    dnp3_database_update_analog_input,
+    dnp3_database_update_analog_input_2,
+    dnp3_database_get_analog_input,
+    StaticAnalogInputVariation,
+    StaticAnalogInputVariation,
+    [
+        Group30Var1,
+        Group30Var2,
+        Group30Var3,
+        Group30Var4,
+        Group30Var5,
+        Group30Var6
+    ],
+    EventAnalogInputVariation,
+    EventAnalogInputVariation,
+    [
+        Group32Var1,
+        Group32Var2,
+        Group32Var3,
+        Group32Var4,
+        Group32Var5,
+        Group32Var6,
+        Group32Var7,
+        Group32Var8
+    ],
+    parse_f64,
+    show_f64,
+    show_f64,
+    |s, e, d: f64| ffi::AnalogInputConfig {
+        static_variation: s,
+        event_variation: e,
+        deadband: d
+    },
     |s, e, d: f64| AnalogInputConfig::new(s, e, d),
     AnalogInput
 );
 
 point_ops!(
-    run_aos, AnalogOutputStatus, AnalogOutputStatusConfig, AnalogOutputStatus, AnalogOutputStatusConfig,
-    dnp3_database_add_analog_output_status, dnp3_database_remove_analog_output_status,
-    dnp3_database_update_analog_output_status, dnp3_database_update_analog_output_status_2,
+    run_aos,
+    AnalogOutputStatus,
+    AnalogOutputStatusConfig,
+    AnalogOutputStatus,
+    AnalogOutputStatusConfig,
+    dnp3_database_add_analog_output_status,
+    dnp3_database_remove_analog_output_status,
+    dnp3_database_update_analog_output_status,
+    dnp3_database_update_analog_output_status_2,
     dnp3_database_get_analog_output_status,
-    StaticAnalogOutputStatusVariation, StaticAnalogOutputStatusVariation,
+    StaticAnalogOutputStatusVariation,
+    StaticAnalogOutputStatusVariation,
     [Group40Var1, Group40Var2, Group40Var3, Group40Var4],
-    EventAnalogOutputStatusVariation, EventAnalogOutputStatusVariation,
-    [Group42Var1, Group42Var2, Group42Var3, Group42Var4, Group42Var5, Group42Var6, Group42Var7, Group42Var8],
-    parse_f64, show_f64, show_f64,
-    |s, e, d: f64| ffi::AnalogOutputStatusConfig { static_variation: s, event_variation: e, deadband: d },
+    EventAnalogOutputStatusVariation,
+    EventAnalogOutputStatusVariation,
+    [
+        Group42Var1,
+        Group42Var2,
+        Group42Var3,
+        Group42Var4,
+        Group42Var5,
+        Group42Var6,
+        Group42Var7,
+        Group42Var8
+    ],
+    parse_f64,
+    show_f64,
+    show_f64,
+    |s, e, d: f64| ffi::AnalogOutputStatusConfig {
+        static_variation: s,
+        event_variation: e,
+        deadband: d
+    },
     |s, e, d: f64| AnalogOutputStatusConfig::new(s, e, d),
     AnalogOutputStatus
 );
@@ -552,11 +717,18 @@ fn run_os(op: &[String], fdb: *mut Database, ndb: &mut Database) -> (String, Str
     };
     let fpt = show(Get::<OctetString>::get(unsafe { &*fdb }, idx));
     let npt = show(Get::<OctetString>::get(ndb, idx));
-    (format!("ret={} pt={}", fret, fpt), format!("ret={} pt={}", nret, npt))
+    (
+        format!("ret={} pt={}", fret, fpt),
+        format!("ret={} pt={}", nret, npt),
+    )
 }
 
 fn run_ffi(script: &Script, obs: &mut Vec<String>) {
-    let evbuf: u16 = script.cfg.get("evbuf").map(|x| x.parse().unwrap()).unwrap_or(10);
+    let evbuf: u16 = script
+        .cfg
+        .get("evbuf")
+        .map(|x| x.parse().unwrap())
+        .unwrap_or(10);
     let ffi_side = new_outstation(evbuf);
     let native_side = new_outstation(evbuf);
     ffi_side.transaction(|fdb_ref| {
@@ -611,10 +783,11 @@ fn verif_ffi_run() {
     let mut out = String::new();
     for s in &scripts {
         let mut obs: Vec<String> = Vec::new();
-        let res = std::panic::catch_unwind(std::panic::AssertUnwindSafe(|| match s.engine.as_str() {
-            "ffi" => run_ffi(s, &mut obs),
-            other => obs.push(format!("unknown-engine {}", other)),
-        }));
+        let res =
+            std::panic::catch_unwind(std::panic::AssertUnwindSafe(|| match s.engine.as_str() {
+                "ffi" => run_ffi(s, &mut obs),
+                other => obs.push(format!("unknown-engine {}", other)),
+            }));
         if let Err(e) = res {
             obs.push(format!("panic {}", panic_text(&e)));
         }
